@@ -124,35 +124,69 @@ def unknown_kept(ctx):
                           "unknown frames of the tag's own version are not in the saved tag: %r" % missing[:3], case)
         if out[len(tagbytes):] != audio:
             ctx.violation("MP3:unknown-frames:audio-changed", "audio differs after save", case)
-    # MP4: an ilst child whose payload cannot be parsed must be written back unchanged
+    # MP4: an ilst child that cannot be (fully) interpreted must be written back unchanged
     from mutagen.mp4 import MP4
     base = F.sample_bytes(ctx.repo, "has-tags.m4a")
-    for bad_name, bad_payload in [(b"trkn", b"\x00\x00\x00\x00\x00\x00\x00\x00\x00\x01"),      # data atom too short for a pair
-                                  (b"tmpo", b"\x00\x00\x00\x15\x00\x00\x00\x00\x01\x02\x03"),  # 3-byte integer
-                                  (b"disk", b"\x00\x00\x00\x00\x00\x00\x00\x00")]:
-        m = MP4(F.NamedBytesIO(base, "a.m4a"))
-        # build the broken child and splice it in through mutagen's own failed-atom channel is not possible from the
-        # outside; synthesise the file instead: append the child to ilst and fix the parent sizes
-        child_data = struct.pack(">L4s", 8 + len(bad_payload), b"data") + bad_payload
-        child = struct.pack(">L4s", 8 + len(child_data), bad_name) + child_data
+
+    def data_atom(typ, payload):
+        body = struct.pack(">BBHI", 0, 0, typ, 0) + payload        # version, flags (type in the low bytes), locale
+        return struct.pack(">L4s", 8 + len(body), b"data") + body
+    cases = [
+        ("text:good+bad-utf8", b"\xa9cmt", [data_atom(1, b"good text"), data_atom(1, b"\xff\xfe not utf-8")]),
+        ("text:good+good+bad-utf8", b"\xa9lyr", [data_atom(1, b"one"), data_atom(1, "zw\u00f6".encode("utf-8")), data_atom(1, b"\xc3")]),
+        ("text:bad-utf8", b"\xa9cmt", [data_atom(1, b"\xff\xfe")]),
+        ("text:good+non-text-type", b"\xa9cmt", [data_atom(1, b"good"), data_atom(21, b"\x00\x01")]),
+        ("unknown:good+non-text-type", b"XYZW", [data_atom(1, b"txt"), data_atom(13, b"\xff\xd8jpeg")]),
+        ("unknown:good+bad-utf8", b"QRST", [data_atom(1, b"txt"), data_atom(1, b"\xe2\x82")]),
+        ("pair:too-short", b"trkn", [data_atom(0, b"\x00\x01")]),
+        ("int:three-bytes", b"tmpo", [data_atom(21, b"\x01\x02\x03")]),
+        ("int:good+three-bytes", b"tmpo", [data_atom(21, b"\x00\x78"), data_atom(21, b"\x01\x02\x03")]),
+        ("cover:good+unknown-format", b"covr", [data_atom(13, b"\xff\xd8a"), data_atom(99, b"zzzz")]),
+    ]
+    for label, name, kids in cases:
+        body = b"".join(kids)
+        child = struct.pack(">L4s", 8 + len(body), name) + body
+        # has-tags.m4a already has covr: use a file without tags for it? keep simple: skip if the key exists already
         data2 = splice_ilst_child(base, child)
-        case = {"sub": "mp4-unparsable-atom", "atom": bad_name.decode(), "payload": bad_payload.hex()}
+        case = {"sub": "mp4-uninterpretable-atom", "label": label, "atom": child.hex()}
         if data2 is None:
-            ctx.hist["mp4-unparsable:cannot-build"] += 1; continue
+            ctx.hist["mp4-uninterpretable:cannot-build"] += 1; continue
         fobj = F.NamedBytesIO(data2, "a.m4a")
         k, m2 = timed(lambda: MP4(fobj), 20)
-        ctx.case(key=("mp4-unparsable", bad_name), nontrivial=True, modelled=False, sample=None)
+        ctx.case(key=("mp4-uninterpretable", label), nontrivial=True, modelled=False, sample=None)
         if k != "ok":
-            ctx.hist["mp4-unparsable:load-raises"] += 1; continue
-        if bad_name.decode("latin-1") in m2.tags:
-            ctx.hist["mp4-unparsable:parsed-after-all"] += 1; continue
+            ctx.hist["mp4-uninterpretable:load-raises:" + label] += 1; continue
+        key = name.decode("latin-1")
+        fully = key in m2.tags and len(m2.tags[key]) == len(kids) and name != b"covr"
+        if name == b"covr" and key in m2.tags and len(m2.tags[key]) >= 3:
+            fully = True
+        if fully:
+            ctx.hist["mp4-uninterpretable:parsed-after-all:" + label] += 1; continue
         fobj.seek(0)
         k, r = timed(lambda: m2.save(fobj), 20)
         if k != "ok":
-            ctx.violation("MP4:unparsable-atom:save-fails", repr(r)[:120], case); continue
-        if child not in fobj.getvalue():
-            ctx.violation("MP4:unparsable-atom-lost", "the ilst child %r that failed to parse is not in the saved file" % bad_name, case)
-        ctx.hist["mp4-unparsable:kept-checked"] += 1
+            ctx.violation("MP4:uninterpretable-atom:save-fails", repr(r)[:120], case); continue
+        out1 = fobj.getvalue()
+        # every data child of the original atom must still be in the file, in order
+        pos = 0; lost = []
+        for kid in kids:
+            j = out1.find(kid, pos)
+            if j < 0:
+                lost.append(kid.hex()[:60])
+            else:
+                pos = j + len(kid)
+        if lost and name != b"covr":
+            ctx.violation("MP4:uninterpretable-atom-lost:%s" % label.split(":")[0],
+                          "load + unchanged save dropped data mutagen could not interpret: %d of %d data atoms of %r are gone"
+                          % (len(lost), len(kids), name), case)
+        f2 = F.NamedBytesIO(out1, "a.m4a")
+        k, m3 = timed(lambda: MP4(f2), 20)
+        if k == "ok":
+            f2.seek(0)
+            k2, _ = timed(lambda: m3.save(f2), 20)
+            if k2 == "ok" and f2.getvalue() != out1:
+                ctx.violation("MP4:uninterpretable-atom:resave-differs", "second unchanged save differs from the first", case)
+        ctx.hist["mp4-uninterpretable:checked:" + label] += 1
 
 
 def splice_ilst_child(data, child):
